@@ -37,6 +37,7 @@ template<class M> struct V2 {
   static constexpr uint64_t of(const term_value<std::string_view>& t) { return term_hash(M::term_of(t.get_value()), t.get_value()); }
 };
 template<int R, class M> struct F2 { template<class... A> constexpr uint64_t operator()(A&&... a) const { uint64_t h = hcomb(0xabcd, uint64_t(R)); ((h = hcomb(h, V2<M>::of(a))), ...); return h; } };
+template<int R, class M> struct FC2M { template<class C, class... A> constexpr uint64_t operator()(C&&, A&&... a) const { uint64_t h = hcomb(0xabcd, uint64_t(R)); ((h = hcomb(h, V2<M>::of(a))), ...); return h; } };
 template<int T> struct TF { constexpr uint64_t operator()(std::string_view sv) const { return term_hash(T, sv); } };
 template<int R> struct G { template<class... A> constexpr uint64_t operator()(A&&...) const { return uint64_t(R); } };
 template<int R> struct FC { template<class C, class... A> constexpr uint64_t operator()(C&&, A&&... a) const { uint64_t h = hcomb(0xabcd, uint64_t(R)); ((h = hcomb(h, val(a))), ...); return h; } };
@@ -69,10 +70,17 @@ def cstr(b):
 
 
 def cxx_str(t):
-    return '"' + t.replace("\\", "\\\\").replace('"', '\\"') + '"'
+    out = ""
+    for ch in t:
+        o = ord(ch)
+        if ch in '"\\' or o < 32 or o > 126:
+            out += "\\%03o" % o
+        else:
+            out += ch
+    return '"' + out + '"'
 
 
-def render_grammar(gi, case, with_cases=True, lite=False):
+def render_grammar(gi, case, with_cases=True, lite=False, ctxmix=False):
     g = case["grammar"]
     ns = "g%d" % gi
     nN = g["nN"]
@@ -92,7 +100,13 @@ def render_grammar(gi, case, with_cases=True, lite=False):
             assoc = "associativity::" + ["no_assoc", "ltor", "rtol"][ti["assoc"]]
             plain = ti["prec"] == 0 and ti["assoc"] == 0
             k = sp["kind"]
-            if k in ("r", "R"):
+            if k == "T":
+                # typed term wrapping a regex term that has a custom display name
+                out.append("constexpr char pat%d[] = %s;" % (t, cxx_str(sp["text"])))
+                out.append("constexpr typed_term T%d(regex_term<pat%d>(%s, %d, %s), hh::TF<%d>{});" % (t, t, cxx_str(sp["name"]), ti["prec"], assoc, t))
+                decl[t] = "T%d" % t
+                in_rules[t] = ["T%d" % t]
+            elif k in ("r", "R"):
                 out.append("constexpr char pat%d[] = %s;" % (t, cxx_str(sp["text"])))
                 if k == "r":
                     out.append("constexpr regex_term<pat%d> T%d(%s, %d, %s);" % (t, t, cxx_str(sp["name"]), ti["prec"], assoc))
@@ -106,7 +120,7 @@ def render_grammar(gi, case, with_cases=True, lite=False):
                 decl[t] = "T%d" % t
                 in_rules[t] = ["T%d" % t]
             else:
-                lit = ("'%s'" % sp["text"]) if k == "c" else cxx_str(sp["text"])
+                lit = (("'\\%03o'" % ord(sp["text"])) if (k == "c" and not (32 < ord(sp["text"]) < 127)) else ("'%s'" % sp["text"])) if k == "c" else cxx_str(sp["text"])
                 if plain and rnd.random() < 0.6:
                     decl[t] = lit
                     in_rules[t] = [lit]
@@ -147,7 +161,11 @@ def render_grammar(gi, case, with_cases=True, lite=False):
         if "prec" in r:
             txt += "[%d]" % r["prec"]
         if not r.get("default_functor"):
-            txt += " >= " + functor % r["slot"]
+            if ctxmix and r["slot"] % 2 == 1:
+                # a context-taking functor ('>>='), attached after the explicit precedence: rule[n] >>= f
+                txt += " >>= " + (("hh::FC2M<%d, M>{}" % r["slot"]) if spelling else ("hh::FC<%d>{}" % r["slot"]))
+            else:
+                txt += " >= " + functor % r["slot"]
         rules.append(txt)
     # the parser stores pointers into itself (term names), so it is always constructed in place, never returned by value
     out.append("#define G%d_ARGS N%d, terms(%s), nterms(%s), rules(\\\n    %s)" % (
@@ -160,7 +178,7 @@ def render_grammar(gi, case, with_cases=True, lite=False):
             lit = cstr(bytes.fromhex(inp["hex"]))
             n = len(bytes.fromhex(inp["hex"]))
             opts = "parse_options{}.set_skip_whitespace(%s).set_skip_newline(%s)" % ("true" if inp["ws"] else "false", "true" if inp["nl"] else "false")
-            out.append('  { std::printf("CASE %s %d ce=9:0"); parse_options o = %s; static const char lit[] = %s; hh::rt("sb", p, o, string_buffer(std::string(lit, %d))); hh::rt("sv", p, o, string_view_buffer(std::string_view(lit, %d))); std::printf("\\n"); }' % (ns, k, opts, lit, n, n))
+            out.append('  { std::printf("CASE %s %d ce=9:0"); parse_options o = %s; static const char lit[] = %s; hh::rt("sb", p, o, string_buffer(std::string(lit, %d))); hh::rt("sv", p, o, string_view_buffer(std::string_view(lit, %d))); { static const std::string big = std::string(lit, %d) + " \\n\\t  ;;zz"; hh::rt("svs", p, o, string_view_buffer(std::string_view(big.data(), %d))); } std::printf("\\n"); }' % (ns, k, opts, lit, n, n, n, n))
         out.append("}")
     elif with_cases:
         for k, inp in enumerate(case["inputs"]):
@@ -175,6 +193,7 @@ def render_grammar(gi, case, with_cases=True, lite=False):
             opts = "parse_options{}.set_skip_whitespace(%s).set_skip_newline(%s)" % ("true" if inp["ws"] else "false", "true" if inp["nl"] else "false")
             out.append('  { std::printf("CASE %s %d ce=%%d:%%llu", hh::probe<c%d>(0), (unsigned long long)hh::cvalue<c%d>(0)); parse_options o = %s; static const char lit[] = %s;' % (ns, k, k, k, opts, lit))
             out.append('    hh::rt("cs", p, o, cstring_buffer(lit)); hh::rt("sb", p, o, string_buffer(std::string(lit, %d))); hh::rt("sv", p, o, string_view_buffer(std::string_view(lit, %d)));' % (n, n))
+            out.append('    { static const std::string big = std::string(lit, %d) + " \\n\\t  ;;zz"; hh::rt("svs", p, o, string_view_buffer(std::string_view(big.data(), %d))); }' % (n, n))
             out.append('    { auto* b0 = new string_buffer(std::string(lit, %d)); auto* b1 = new string_buffer(std::move(*b0)); string_buffer b2(*b1); *b0 = string_buffer("#gone#"); *b1 = string_buffer("#gone as well, and long enough for the heap#"); delete b0; delete b1; hh::rt("sbc", p, o, b2); }' % n)
             out.append('    hh::rt("r_cs", *p2, o, cstring_buffer(lit)); hh::rt("r_sb", *p2, o, string_buffer(std::string(lit, %d))); hh::rt("r_sv", *p2, o, string_view_buffer(std::string_view(lit, %d))); std::printf("\\n"); }' % (n, n))
         out.append("  delete p2;")
@@ -183,10 +202,10 @@ def render_grammar(gi, case, with_cases=True, lite=False):
     return "\n".join(out)
 
 
-def render_program(cases, idxs, lite=False):
+def render_program(cases, idxs, lite=False, ctxmix=False):
     parts = [PRELUDE]
     for gi in idxs:
-        parts.append(render_grammar(gi, cases[gi], True, lite))
+        parts.append(render_grammar(gi, cases[gi], True, lite, ctxmix))
     parts.append("int main() { hh::big_stack([] {")
     for gi in idxs:
         parts.append("  g%d::run_all();" % gi)
@@ -211,6 +230,8 @@ def render_c17b(cases):
                 variants.append(("nterm", n))
         for t in used_t:
             variants.append(("term", t))
+        if used_t:
+            variants.insert(0, ("regex-name", used_t[0]))   # a rule names an undeclared regex term whose *display name* equals a declared regex term's
         variants.append(("none", -1))          # control: the untouched grammar must construct
         for kind, which in variants[:6] + [variants[-1]]:
             ns = "b%d" % k
@@ -219,6 +240,11 @@ def render_c17b(cases):
             # terms are string terms whose spellings are prefixes of each other, longest declared first (nothing is parsed here)
             tsp = lambda t: '"%s"' % ("t" * (g["nT"] - t))
             terms = [tsp(t) for t in range(g["nT"]) if not (kind == "term" and t == which)]
+            if kind == "regex-name":
+                # terminal `which` is a declared regex term "num"; the rules use a different, undeclared regex term that is also called "num"
+                out.append('constexpr char rpa[] = "x[0-9]+"; constexpr char rpb[] = "y[0-9a-f]+"; constexpr regex_term<rpa> RA("num"); constexpr regex_term<rpb> RB("num");')
+                terms = [("RA" if t == which else tsp(t)) for t in range(g["nT"])]
+                tsp = (lambda which_: (lambda t: "RB" if t == which_ else '"%s"' % ("t" * (g["nT"] - t))))(which)
             nts = ["N%d" % i for i in range(nN) if not (kind == "nterm" and i == which)]
             rules = []
             first_rule_first_symbol = False
@@ -374,7 +400,7 @@ def parse_case_lines(out):
     return res
 
 
-def emit_cases(seed, n, work, spelling=True):
+def emit_cases(seed, n, work, spelling=True, only_class=None):
     ok, eg, log = BUILD.ensure("e_grammar", REPO)
     if not ok:
         return None, log
@@ -382,6 +408,8 @@ def emit_cases(seed, n, work, spelling=True):
     env = dict(os.environ)
     if not spelling:
         env["EMIT_NO_SPELLING"] = "1"
+    if only_class is not None:
+        env["EMIT_ONLY_CLASS"] = str(only_class)
     r = subprocess.run([eg, "--prop", "C07", "--mode", "emit", "--seed", str(seed), "--cases", str(n), "--size", "400", "--out", out], stdout=subprocess.PIPE, stderr=subprocess.STDOUT, env=env)
     if not os.path.exists(out):
         return None, r.stdout.decode("utf-8", "replace")[-3000:]
@@ -406,9 +434,9 @@ def run(pid, tier, seed, work, viol_dir, known_ids=()):
         cases = json.load(open(outp))["cases"]
         log = ""
     ncases = {"C03": {"quick": 16, "thorough": 160}, "C07": {"quick": 24, "thorough": 240}, "C17": {"quick": 8, "thorough": 60}, "C13": {"quick": 16, "thorough": 160},
-              "C01": {"quick": 16, "thorough": 160}, "C02": {"quick": 16, "thorough": 160}, "C09": {"quick": 16, "thorough": 160}}[pid][tier]
+              "C01": {"quick": 16, "thorough": 160}, "C02": {"quick": 16, "thorough": 160}, "C05": {"quick": 16, "thorough": 160}, "C09": {"quick": 16, "thorough": 160}}[pid][tier]
     if pid != "C03":
-      cases, log = emit_cases((seed + {"C01": 101, "C02": 202, "C09": 909}.get(pid, 0)) % 0x7FFFFFFF or 1, ncases, work, spelling=(pid in ("C07", "C01", "C02", "C09")))
+      cases, log = emit_cases((seed + {"C01": 101, "C02": 202, "C05": 505, "C09": 909}.get(pid, 0)) % 0x7FFFFFFF or 1, ncases, work, spelling=(pid in ("C07", "C01", "C02", "C05", "C09")), only_class=(1 if pid == "C05" else None))
     if cases is None:
         print("HARNESS-BUILD-FAILED engine=e_grammar (emit)")
         print(log)
@@ -423,14 +451,15 @@ def run(pid, tier, seed, work, viol_dir, known_ids=()):
     def lab(k, n=1):
         labels[k] = labels.get(k, 0) + n
 
-    lite = pid in ("C01", "C02", "C09")
+    lite = pid in ("C01", "C02", "C05", "C09")
+    ctxmix = pid == "C05"
     if pid == "C07" or lite:
         per_tu = 1
         groups = [list(range(i, min(i + per_tu, len(cases)))) for i in range(0, len(cases), per_tu)]
         jobs = []
         for gi, idxs in enumerate(groups):
             src = os.path.join(work, "prog_%d.cpp" % gi)
-            open(src, "w").write(render_program(cases, idxs, lite))
+            open(src, "w").write(render_program(cases, idxs, lite, ctxmix))
             for cxx in (("clang++",) if (lite and gi % 2) else ("g++",) if lite else ("g++", "clang++")):
                 jobs.append((gi, idxs, src, cxx))
         with ThreadPoolExecutor(max_workers=16) as ex:
@@ -462,11 +491,11 @@ def run(pid, tier, seed, work, viol_dir, known_ids=()):
                     if d is None:
                         what = "program produced no result line (crashed?) rc=%s" % res.get("rc")
                     elif f11 and d["ce"].split(":")[0] == "-1" and d["cs"].startswith("EXC") and d["r_cs"].startswith("EXC") and all(
-                            d[tag].split(":")[0] == str(want_acc) and (not want_acc or d[tag].split(":")[1] == want_val) and d[tag].split(":")[2] == want_msg for tag in ("sb", "sv", "sbc", "r_sb", "r_sv")):
+                            d[tag].split(":")[0] == str(want_acc) and (not want_acc or d[tag].split(":")[1] == want_val) and d[tag].split(":")[2] == want_msg for tag in ("sb", "sv", "svs", "sbc", "r_sb", "r_sv")):
                         excluded["F11"] = excluded.get("F11", 0) + 1
                         continue
                     elif lite:
-                        for tag in ("sb", "sv"):
+                        for tag in ("sb", "sv", "svs"):
                             a, v, m = d[tag].split(":")
                             if a == "EXC":
                                 what = "run-time parse (%s) threw: %s (%s)" % (tag, bytes.fromhex(m).decode("utf-8", "replace"), cxx)
@@ -474,6 +503,8 @@ def run(pid, tier, seed, work, viol_dir, known_ids=()):
                                 what = ("a derivable input was rejected" if want_acc else "an underivable input was accepted") + " by a parser written in the DSL (%s, %s)" % (tag, cxx)
                             elif pid == "C02" and want_acc and v != want_val:
                                 what = "result differs from the bottom-up evaluation of the derivation tree (%s, %s)" % (tag, cxx)
+                            elif pid == "C05" and want_acc and v != want_val:
+                                what = "expression grouped against the documented precedence/associativity rules in a parser written in the DSL (%s, %s)" % (tag, cxx)
                             elif pid == "C09" and m != want_msg:
                                 what = "error report differs from the reference (%s, %s)" % (tag, cxx)
                             if what:
@@ -485,7 +516,7 @@ def run(pid, tier, seed, work, viol_dir, known_ids=()):
                         elif int(ce[0]) != want_acc or (want_acc and ce[1] != want_val):
                             what = "compile-time result differs from the reference (%s)" % cxx
                         else:
-                            for tag in ("cs", "sb", "sv", "sbc", "r_cs", "r_sb", "r_sv"):
+                            for tag in ("cs", "sb", "sv", "svs", "sbc", "r_cs", "r_sb", "r_sv"):
                                 a, v, m = d[tag].split(":")
                                 if a == "EXC":
                                     what = "run-time parse (%s) threw: %s (%s)" % (tag, bytes.fromhex(m).decode("utf-8", "replace"), cxx)
@@ -500,7 +531,7 @@ def run(pid, tier, seed, work, viol_dir, known_ids=()):
                         vp = os.path.join(viol_dir, "%s_%s.json" % (pid, hashlib.sha1((json.dumps(case["grammar"]) + inp["hex"] + cxx).encode()).hexdigest()[:12]))
                         one = dict(case)
                         one["inputs"] = [inp]
-                        json.dump({"check": pid, "kind": "program", "lite": lite, "compiler": cxx, "what": what, "observed": d, "cases": [one], "idxs": [0], "source": render_program([one], [0], lite)}, open(vp, "w"))
+                        json.dump({"check": pid, "kind": "program", "lite": lite, "compiler": cxx, "what": what, "observed": d, "cases": [one], "idxs": [0], "source": render_program([one], [0], lite, ctxmix)}, open(vp, "w"))
                         violations.append((what, vp))
                         continue
                     ntoks = inp.get("tokens", 0)
@@ -512,7 +543,7 @@ def run(pid, tier, seed, work, viol_dir, known_ids=()):
                 if case.get("spelling"):
                     lab("spelled-terms")
                     for sp in case["spelling"]:
-                        lab("term-kind:" + {"c": "char", "s": "string", "r": "regex(named)", "R": "regex(unnamed)", "t": "typed"}[sp["kind"]])
+                        lab("term-kind:" + {"c": "char", "s": "string", "r": "regex(named)", "R": "regex(unnamed)", "t": "typed(char)", "T": "typed(named regex)"}[sp["kind"]])
         for case in cases[:3]:
             samples.append({"grammar": case["grammar"]["text"], "class": case["class"], "inputs": [i["text"] for i in case["inputs"]][:8]})
     elif pid == "C03":
@@ -661,7 +692,7 @@ def run(pid, tier, seed, work, viol_dir, known_ids=()):
                 if g is None:
                     what = "no result line"
                 elif m["expect_reject"] and (g[0] != -1 or g[1] != 1):
-                    what = "a grammar that references an undeclared %s was constructed (constexpr probe=%d, run-time threw=%d, %s)" % (m["removed"], g[0], g[1], cxx)
+                    what = "a grammar that references an undeclared %s was constructed (constexpr probe=%d, run-time threw=%d, %s)" % ({"regex-name": "regex term (same display name as a declared one)"}.get(m["removed"], m["removed"]), g[0], g[1], cxx)
                 elif (not m["expect_reject"]) and (g[0] != 1 or g[1] != 0):
                     what = "control: a grammar whose symbols are all declared was rejected (%s)" % cxx
                 if what:
@@ -722,16 +753,16 @@ def replay(path):
             want_acc = 1 if inp["accept"] else 0
             want_val = inp["value"] if inp["accept"] else "0"
             if d.get("lite"):
-                for tag in ("sb", "sv"):
+                for tag in ("sb", "sv", "svs"):
                     a, v, m = g[tag].split(":") if g else ("EXC", "0", "")
-                    if a == "EXC" or int(a) != want_acc or (d["check"] == "C02" and want_acc and v != want_val) or (d["check"] == "C09" and m != inp["messages_hex"]):
+                    if a == "EXC" or int(a) != want_acc or (d["check"] in ("C02", "C05") and want_acc and v != want_val) or (d["check"] == "C09" and m != inp["messages_hex"]):
                         bad += 1
                         break
                 continue
             if g is None or g["ce"].split(":")[0] == "-1" or int(g["ce"].split(":")[0]) != want_acc or (want_acc and g["ce"].split(":")[1] != want_val):
                 bad += 1
                 continue
-            for tag in ("cs", "sb", "sv", "sbc", "r_cs", "r_sb", "r_sv"):
+            for tag in ("cs", "sb", "sv", "svs", "sbc", "r_cs", "r_sb", "r_sv"):
                 a, v, m = g[tag].split(":")
                 if a == "EXC" or int(a) != want_acc or (want_acc and v != want_val) or m != inp["messages_hex"]:
                     bad += 1
